@@ -111,6 +111,12 @@ type Server struct {
 	// Mutex for updating svcs
 	mu sync.Mutex
 
+	// connectMu serializes the part of the handshake that follows authentication:
+	// disconnecting an existing connection of the same client (MQTT-3.1.4-2),
+	// getting the session, CONNACK, start and registration in svcs. So a client
+	// identifier has at most one connection at any time. It is taken before mu.
+	connectMu sync.Mutex
+
 	// A indicator on whether this server has already checked configuration
 	configOnce sync.Once
 }
@@ -463,6 +469,19 @@ func (svr *Server) handleConnection(c io.Closer) (svc *service, err error) {
 		conn:      conn,
 		sessMgr:   svr.sessMgr,
 		topicsMgr: svr.topicsMgr,
+
+		stopped: make(chan struct{}),
+	}
+
+	svr.connectMu.Lock()
+	defer svr.connectMu.Unlock()
+
+	// If the ClientId represents a client already connected, the existing client
+	// is disconnected first (MQTT-3.1.4-2), and completely: its subscriptions are
+	// gone, its will is published and its session is deleted or kept before the
+	// session for this connection is looked up. A generated identifier is unique.
+	if len(req.ClientID()) > 0 {
+		svr.disconnectClient(string(req.ClientID()))
 	}
 
 	err = svr.getSession(svc, req, resp)
@@ -491,6 +510,40 @@ func (svr *Server) handleConnection(c io.Closer) (svc *service, err error) {
 	log.Debugf("(%s) Connection established", svc.cid())
 
 	return svc, nil
+}
+
+// disconnectClient stops the connections of the client with identifier cid and
+// returns when their teardown has finished. The teardown of a connection waits
+// for its goroutines; one of them may be delivering to a third connection whose
+// client does not read: then this waits, too. Connections whose teardown has
+// finished are dropped from svcs on the way. The caller holds connectMu.
+func (svr *Server) disconnectClient(cid string) {
+	var same []*service
+
+	svr.mu.Lock()
+	n := 0
+	for _, s := range svr.svcs {
+		select {
+		case <-s.stopped:
+			continue
+		default:
+		}
+		svr.svcs[n] = s
+		n++
+		if s.sess != nil && s.sess.ID() == cid {
+			same = append(same, s)
+		}
+	}
+	for i := n; i < len(svr.svcs); i++ {
+		svr.svcs[i] = nil
+	}
+	svr.svcs = svr.svcs[:n]
+	svr.mu.Unlock()
+
+	for _, s := range same {
+		s.stop()
+		<-s.stopped
+	}
 }
 
 func (svr *Server) checkConfiguration() error {
